@@ -22,6 +22,7 @@ import (
 var (
 	streams     sync.Map            // 流媒体集合 string->*Stream
 	psFactories []PullStreamFactory // 拉流工厂
+	registLock  sync.Mutex          // 保证 Regist/Unregist 中对 streams 的读-改-写是原子的
 )
 
 // PullStreamFactory 拉流工程流
@@ -42,6 +43,9 @@ func RegistPullStreamFactory(f PullStreamFactory) {
 
 // Regist 注册流
 func Regist(s *Stream) {
+	registLock.Lock()
+	defer registLock.Unlock()
+
 	// 获取同 path 的现有流
 	oldSI, ok := streams.Load(s.path)
 	if s == oldSI { // 如果是同一个源
@@ -65,6 +69,9 @@ func Regist(s *Stream) {
 
 // Unregist 取消注册
 func Unregist(s *Stream) {
+	registLock.Lock()
+	defer registLock.Unlock()
+
 	si, ok := streams.Load(s.path)
 	if ok {
 		s2 := si.(*Stream)
